@@ -147,6 +147,25 @@ def run(repo: Repo, rep: Report, tier: str) -> None:
             if isinstance(x, ast.Subscript) and is_user_expr(x.value) and not is_user_expr(x):
                 n_tot += 1
                 rep.fail("handler-total", fq, enclosing(x, (ast.stmt,)) or x, "a user-supplied object is indexed inside the except body", mod=ev, node=x)
+    def holds_user(e):
+        return any(is_user_expr(x) for x in ast.walk(e) if isinstance(x, (ast.Name, ast.Subscript)))
+
+    for s in h.body:
+        for x in ast.walk(s):
+            why = None
+            if isinstance(x, ast.Compare) and any(isinstance(o, (ast.In, ast.NotIn, ast.Eq, ast.NotEq, ast.Lt, ast.Gt, ast.LtE, ast.GtE)) for o in x.ops) and (holds_user(x.left) or any(holds_user(c) for c in x.comparators)):
+                why = "is compared / looked up in a container (calls the user's __eq__ / __hash__)"
+            elif isinstance(x, ast.Call) and isinstance(x.func, ast.Attribute) and x.func.attr in ("add", "remove", "discard", "index", "count", "setdefault", "get", "pop", "append") and any(holds_user(a) for a in x.args) and x.func.attr != "append":
+                why = f"is passed to .{x.func.attr}() of a set / dict / list (hashes or compares it)"
+            elif isinstance(x, ast.Call) and dotted(x.func) == "hash" and any(holds_user(a) for a in x.args):
+                why = "is hashed"
+            elif isinstance(x, (ast.Set, ast.Dict)) and any(holds_user(k) for k in (x.elts if isinstance(x, ast.Set) else [k for k in x.keys if k is not None])):
+                why = "is used as a set element / dict key (hashed)"
+            elif isinstance(x, ast.Subscript) and not is_user_expr(x) and not is_user_expr(x.value) and holds_user(x.slice):
+                why = "is used as a dictionary key (hashed)"
+            if why:
+                n_tot += 1
+                rep.fail("handler-total", fq, enclosing(x, (ast.stmt,)) or x, f"inside the except body the user's handler object {why}: an unhashable callable (a dataclass instance with __call__, a callable with a raising __eq__) makes trigger() itself raise, so the notification handler's failure escapes into the protocol machinery", mod=ev, node=x)
     rep.ok("handler-total", f"{fq} :: except body scanned", f"{n_tot} uses of user objects")
 
     # ---- abort restored -----------------------------------------------------------------------
@@ -225,6 +244,15 @@ def run(repo: Repo, rep: Report, tier: str) -> None:
     rets = [r for r in walk_no_nested(at_exit) if isinstance(r, ast.Return)]
     sup_ok = bool(rets) and isinstance(body_nodoc(at_exit)[-1], ast.Return) and norm(body_nodoc(at_exit)[-1].value) == "True" and not any(isinstance(x, ast.Raise) for x in walk_no_nested(at_exit))
     rep.check(sup_ok, "intervention-enclosed", "service_class.attempt.__exit__", "falls through to `return True`, never raises", "`with attempt(...)` only contains handler exceptions because __exit__ returns True", mod=repo.mod("service_class"), node=at_exit)
+    # every other way out must be the "no exception" case: a falsy return lets the exception propagate
+    for r in rets:
+        v = r.value
+        truthy = isinstance(v, ast.Constant) and v.value is True
+        if truthy:
+            continue
+        g_ = enclosing(r, (ast.If,))
+        no_exc = g_ is not None and norm(g_.test) in ("exc_type is None", "exc_val is None", "not exc_type") and any(x is r for x in g_.body)
+        rep.check(no_exc, "intervention-enclosed", "service_class.attempt.__exit__", r, f"__exit__ returns a falsy value under `{norm(g_.test) if g_ is not None else 'no condition'}` although an exception is in flight: that exception (e.g. SystemExit / KeyboardInterrupt raised by a handler) propagates out of the SCP into the reactor thread, and no failure response is sent", mod=repo.mod("service_class"), node=r)
     n_int = n_not = 0
     sites = []
     for mname, m in sorted(repo.modules.items()):
